@@ -1,9 +1,13 @@
+use indexmap::IndexMap;
+
 use crate::dynamic::{Field, InputValue, Interface, InterfaceField, Object, TypeRef};
 
 pub(crate) trait BaseField {
     fn ty(&self) -> &TypeRef;
 
     fn argument(&self, name: &str) -> Option<&InputValue>;
+
+    fn arguments(&self) -> &IndexMap<String, InputValue>;
 }
 
 pub(crate) trait BaseContainer {
@@ -25,6 +29,11 @@ impl BaseField for Field {
     #[inline]
     fn argument(&self, name: &str) -> Option<&InputValue> {
         self.arguments.get(name)
+    }
+
+    #[inline]
+    fn arguments(&self) -> &IndexMap<String, InputValue> {
+        &self.arguments
     }
 }
 
@@ -55,6 +64,11 @@ impl BaseField for InterfaceField {
     #[inline]
     fn argument(&self, name: &str) -> Option<&InputValue> {
         self.arguments.get(name)
+    }
+
+    #[inline]
+    fn arguments(&self) -> &IndexMap<String, InputValue> {
+        &self.arguments
     }
 }
 
